@@ -256,7 +256,7 @@ CLAIMS = {
                   'under fault injection',
         ref='DESIGN.md §5 C08'),
     'C03': dict(
-        text='The simple dtml-var (the \'v\' branch of render_blocks_: lookup, ustr, the fast-path test character by character, html_quote) is TRANSLATED from /repo on every run (GenRender.vBlockGen) and proved equal to the interpreter\'s fetchVar (gen_simple_var_is_model). Lean 4 theorems about the quoting model for ALL strings: escape_no_raw, unescape5_escape (round trip), '
+        text='The simple dtml-var (the \'v\' branch of render_blocks_: lookup, ustr, the fast-path test character by character, html_quote) is TRANSLATED from /repo on every run (GenRender.vBlockGen) and proved equal to the interpreter\'s fetchVar (gen_simple_var_is_model). Var.__init__ (which tags compile to that simple form) is TRANSLATED too (GenVarInit): gen_var_init_is_checkSimple, gen_var_form_is_interp, gen_var_simple_form_is_fetch. Lean 4 theorems about the quoting model for ALL strings: escape_no_raw, unescape5_escape (round trip), '
              'escape_id_iff, fastpath_sound (stated over Gen.fastPathChars, the character list extracted from '
              'render_blocks_ on every run), forms_agree, plain_unchanged, escChar_cases, gen_escape_table; '
              'correspondence over every code point and special-dense random strings through 21 spellings of the '
@@ -288,6 +288,8 @@ CLAIMS = {
              'unquote_inverts_quote_partial, finding_C15_double_unquote; Var.render is TRANSLATED from /repo on every run '
              '(harness/trans_var.py -> GenVar.lean): gen_var_render_stages (the order of the stages as the source has it), '
              'gen_truncate_is_model (the size / etc block, statement by statement, equals VarPipe.truncate); '
+             'Var.__init__ is TRANSLATED too (harness/trans_varinit.py -> GenVarInit.lean): gen_var_form_is_model (the if-chain that '
+             'stores simple_form, test by test, equals VarPipe.simpleKind), gen_var_modifiers_is_model (the filter of self.modifiers equals applied); '
              'correspondence on random specs x values '
              '(str/int/None/objects/undefined/tainted) incl. permuted option order; documentation oracles on the '
              'real tag (truncation rule, str methods on full Unicode, grouping, url round trip, sql_quote, null table)',
